@@ -269,8 +269,10 @@ func runC13(c *vk.Ctx) {
 		}
 		tol.Mul(tol, bfNew().Add(intPow, bf(1)))
 		tol.Add(tol, bfScaled(big.NewInt(2000), 18)) // 18-decimal rounding of ≤ ~1000 series terms
-		strict := bfNew().Mul(pp, bfNew().Add(intPow, bf(1)))
-		strict.Add(strict, bfScaled(big.NewInt(2000), 18))
+		// documented precision read literally: the fractional power is within powPrecision, the integer
+		// power multiplies that error (plus the 18-decimal roundings of the series terms and products)
+		strict := bfNew().Mul(pp, intPow)
+		strict.Add(strict, bfNew().Mul(bfNew().Add(want, bf(1)), bfScaled(big.NewInt(2000), 18)))
 		c.Max("pow_abs_err", bfF64(diff), fmt.Sprintf("base=%s/1e18 exp=%s/1e18", bi, ei))
 		if frac.Sign() != 0 && diff.Cmp(strict) > 0 {
 			// beyond the documented precision read literally (absolute powPrecision)
@@ -328,6 +330,14 @@ func runC13(c *vk.Ctx) {
 				xi.Add(xi, big.NewInt(r.Range(-1, 1)))
 				if xi.Sign() < 0 {
 					xi.SetInt64(0)
+				}
+			}
+			if r.Intn(8) == 0 { // r0·(r0+j) for round r0: products just above a perfect square that r0 itself divides
+				r0 := new(big.Int).Mul(big.NewInt(1+r.I64n(999)), new(big.Int).Exp(big.NewInt(10), big.NewInt(9+r.I64n(19)), nil))
+				j := big.NewInt(1 + r.I64n(4))
+				prod := new(big.Int).Mul(r0, new(big.Int).Add(r0, j))
+				if new(big.Int).Rem(prod, e18).Sign() == 0 {
+					xi = prod.Quo(prod, e18)
 				}
 			}
 			x := mkDec(xi)
